@@ -153,21 +153,47 @@ def find_leading_zero_ec(crv, which, limit=4000):
 
 
 # ----------------------------------------------------------------- joserfc key construction
+_RAW = {}
+
+
 def jkey(jwk, how="dict", private=True, params=None):
-    """Build a joserfc Key from a reference JWK by the requested route."""
-    from joserfc.jwk import JWKRegistry, OctKey, RSAKey, ECKey, OKPKey
+    """Build a fresh joserfc Key object from a reference JWK by the requested route.
+
+    RSA private keys cost 40-85 ms to load (OpenSSL validates the primes), so for them the loaded
+    cryptography object is cached per (key, route) and every call wraps it in a *new* joserfc Key
+    exactly as Key.import_key does (validate, bind, construct); all other kinds go through
+    Key.import_key itself."""
+    from joserfc.jwk import OctKey, RSAKey, ECKey, OKPKey
     cls = {"oct": OctKey, "RSA": RSAKey, "EC": ECKey, "OKP": OKPKey}[jwk["kty"]]
     src = jwk if private else rjwk.public_of(jwk)
     if how == "dict" or jwk["kty"] == "oct" and how != "bytes":
-        return cls.import_key(dict(src), params)
-    if how == "bytes":
+        value = dict(src)
+    elif how == "bytes":
         return OctKey.import_key(b64.dec(jwk["k"]), params)
-    obj = rjwk.load(src, private=private if jwk["kty"] != "oct" else None)
-    if how == "native":
-        return cls(obj, obj, params)
-    enc = ser.Encoding.PEM if how == "pem" else ser.Encoding.DER
-    if private:
-        raw = obj.private_bytes(enc, ser.PrivateFormat.PKCS8, ser.NoEncryption())
     else:
-        raw = obj.public_bytes(enc, ser.PublicFormat.SubjectPublicKeyInfo)
-    return cls.import_key(raw, params)
+        ck = ("obj", how, private, jwk.get("n") or jwk.get("x"), jwk.get("crv"))
+        value = _RAW.get(ck)
+        if value is None:
+            obj = rjwk.load(src, private=private if jwk["kty"] != "oct" else None)
+            if how == "native":
+                value = obj
+            else:
+                enc = ser.Encoding.PEM if how == "pem" else ser.Encoding.DER
+                if private:
+                    value = obj.private_bytes(enc, ser.PrivateFormat.PKCS8, ser.NoEncryption())
+                else:
+                    value = obj.public_bytes(enc, ser.PublicFormat.SubjectPublicKeyInfo)
+            _RAW[ck] = value
+        if how == "native":
+            return cls(value, value, params)
+    if not (jwk["kty"] == "RSA" and private):
+        return cls.import_key(value, params)
+    ck = ("raw", how, jwk["n"])
+    raw = _RAW.get(ck)
+    if isinstance(value, dict):
+        cls.validate_dict_key(value)
+        if raw is None:
+            raw = _RAW[ck] = cls.binding.import_from_dict(value)
+    elif raw is None:
+        raw = _RAW[ck] = cls.binding.import_from_bytes(value, None)
+    return cls(raw, value, params)
